@@ -12,7 +12,6 @@ import (
 	"github.com/attestantio/go-eth2-client/spec/phase0"
 	"github.com/attestantio/vouch/internal/vnd"
 	"github.com/attestantio/vouch/internal/vstub"
-	"github.com/rs/zerolog"
 )
 
 type c07Provider struct {
@@ -48,7 +47,7 @@ func (p *c07Provider) AttestationData(ctx context.Context, _ *api.AttestationDat
 
 // c07New builds the strategy through the package's constructor.
 func c07New(timeout time.Duration, providers map[string]eth2client.AttestationDataProvider) *Service {
-	s, err := New(context.Background(), WithLogLevel(zerolog.Disabled), WithClientMonitor(vstub.ClientMonitor{}),
+	s, err := New(context.Background(), WithLogLevel(vnd.LogLevel()), WithClientMonitor(vstub.ClientMonitor{}),
 		WithTimeout(timeout), WithAttestationDataProviders(providers))
 	vnd.Assert(err == nil && s != nil, "C07.new.accepted")
 	return s
